@@ -110,6 +110,11 @@ Proof.
   - eapply IH; eauto.
 Qed.
 
+(* linear-time list reversal (the standard [rev] is quadratic when executed) *)
+Definition frev {A} (l : list A) : list A := rev_append l [].
+Lemma frev_rev {A} (l : list A) : frev l = rev l.
+Proof. unfold frev. rewrite rev_append_rev. apply app_nil_r. Qed.
+
 (* ---- small arithmetic helpers shared by encoder and decoder ---- *)
 Definition byte_ok (b : N) : Prop := b < 256.
 Definition bytes_ok (bs : list N) : Prop := Forall byte_ok bs.
